@@ -39,6 +39,16 @@ pub fn tok_of_value(v: &str) -> u32 {
         v[1..].parse().unwrap_or(999999)
     }
 }
+/// content token of a cell: a formula cell (C07 stream: `A1+<tok>`, tok >= 100) carries its token in the
+/// constant after the last `+` (the reference part may be shifted by row/column edits, C08's subject);
+/// any other cell carries it in its value `v<tok>`
+pub fn tok_of_cell(c: &umya_spreadsheet::structs::Cell) -> u32 {
+    if c.is_formula() {
+        c.get_formula().rsplit('+').next().and_then(|x| x.parse().ok()).unwrap_or(999999)
+    } else {
+        tok_of_value(&c.get_value())
+    }
+}
 
 fn rect(rs: u32, re: u32, cs: u32, ce: u32) -> String {
     format!("{}:{}", coordinate_from_index(&cs, &rs), coordinate_from_index(&ce, &re))
@@ -58,7 +68,7 @@ pub fn dump(ws: &Worksheet) -> String {
                     k.1,
                     c.get_coordinate().get_row_num(),
                     c.get_coordinate().get_col_num(),
-                    tok_of_value(&c.get_value()),
+                    tok_of_cell(c),
                     tok_of_style(c.get_style())
                 ),
             )
@@ -301,7 +311,7 @@ pub fn exec(out: &mut Out, st: &mut State, line: &str, prop: &str) -> (String, b
                     "{}.{}.{}.{}",
                     c.get_coordinate().get_row_num(),
                     c.get_coordinate().get_col_num(),
-                    tok_of_value(&c.get_value()),
+                    tok_of_cell(c),
                     tok_of_style(c.get_style())
                 ),
                 None => "-".into(),
